@@ -2,10 +2,12 @@
  * (coq/theories/Feb/Micro.v):  task A runs its call up to (and including) its k-th qt_hash_unlock, task B then runs its
  * whole call, then A is released.  White-box: feb.c's call sites of qt_hash_unlock are interposed by a macro; no edit of /repo.
  * Run with 3 shepherds x 1 worker: the controller (main task), A and B each own a worker, so A can be held inside the call.
- * Investigation tool only: not part of ./check.
+ * Used by ./check C01 (micro tier, lib/verif/props/c01.py) and by tools/c01_micro_probe.py.
  *
- * stdin:  m <A op> <A value> <k> <B op> <B value>      (k = 0: A is not held, it simply runs first)
- * stdout: A=<rc|BLK>:<value|-> B=<rc|BLK>:<value|-> status=<0|1> word=<v> paused=<0|1>
+ * stdin:  m <absent|empty> <A op> <A value> <k> <B op> <B value> <contended>
+ *         (k = 0: A is not held, it simply runs first; contended = 1: the model says B will wait for a lock A holds while
+ *          held, so B is only given a short time before A is released)
+ * stdout: A=<rc|BLK>:<value|-> B=<rc|BLK>:<value|-> status=<0|1> word=<v> paused=<0|1> stuck=<0|1>
  */
 #define _GNU_SOURCE 1
 #ifdef HAVE_CONFIG_H
@@ -77,7 +79,9 @@ static aligned_t ptask(void *arg)
 }
 
 static double now(void) { struct timespec ts; clock_gettime(CLOCK_MONOTONIC, &ts); return ts.tv_sec + 1e-9 * ts.tv_nsec; }
-static int wait_flag(volatile int *f, double secs) { double t0 = now(); while (!*f) { if (now() - t0 > secs) return 0; sched_yield(); } return 1; }
+/* definitive states of a task: its call returned, or it is blocked on the FEB word */
+static int settled(ptask_t *T) { return T->done || (T->self && T->self->thread_state == QTHREAD_STATE_FEB_BLOCKED); }
+static int wait_settled(ptask_t *T, double secs) { double t0 = now(); while (!settled(T)) { if (now() - t0 > secs) return 0; sched_yield(); } return 1; }
 static void on_alarm(int s) { printf("TIMEOUT\n"); fflush(stdout); _exit(3); }
 
 static aligned_t arena[1 << 14] __attribute__((aligned(64)));
@@ -99,10 +103,13 @@ int main(void)
     printf("H %d %d\n", (int)qthread_num_shepherds(), (int)qthread_num_workers());
     if (qthread_num_shepherds() < 3) { printf("ERR needs 3 shepherds\n"); return 1; }
     while (fgets(line, sizeof(line), stdin)) {
-        char opa[32], opb[32]; long long va, vb; int k;
-        if (sscanf(line, "m %31s %lld %d %31s %lld", opa, &va, &k, opb, &vb) != 5) { printf("ERR parse\n"); continue; }
+        char opa[32], opb[32], init[16]; long long va, vb; int k, contended = 0, stuck = 0;
+        if (sscanf(line, "m %15s %31s %lld %d %31s %lld %d", init, opa, &va, &k, opb, &vb, &contended) < 6) { printf("ERR parse\n"); fflush(stdout); continue; }
+        alarm(120);
         aligned_t *w = &arena[next_word]; next_word += 8;
+        if (next_word > (1 << 14) - 16) { printf("ERR arena\n"); fflush(stdout); continue; }
         *w = 5;
+        if (!strcmp(init, "empty")) qthread_empty(w);
         ptask_t *A = calloc(1, sizeof(ptask_t)), *B = calloc(1, sizeof(ptask_t));
         strcpy(A->op, opa); A->val = (aligned_t)va; A->w = w;
         strcpy(B->op, opb); B->val = (aligned_t)vb; B->w = w;
@@ -113,17 +120,19 @@ int main(void)
         if (k > 0) armed = A->self;
         __sync_synchronize();
         A->start = 1;
-        int was_paused = 0;
-        if (k > 0) { double t0 = now(); while (!paused && !A->done && now() - t0 < 1.0) sched_yield(); was_paused = paused; }
-        else wait_flag(&A->done, 0.3);
+        { double t0 = now(); while (!paused && !settled(A)) { if (now() - t0 > 5.0) { stuck = 1; break; } sched_yield(); } }
+        int was_paused = paused;
         B->start = 1;
-        wait_flag(&B->done, 0.3);          /* B may legitimately block */
+        if (contended) wait_settled(B, 0.03);                 /* B is expected to wait for a lock A holds */
+        else if (!wait_settled(B, 5.0)) stuck = 1;
         go = 1;
-        wait_flag(&A->done, 0.3);
-        if (!B->done) wait_flag(&B->done, 0.3);
+        for (int round = 0; round < 3; round++) {              /* a call that returns may release the other task */
+            if (!wait_settled(A, 5.0)) stuck = 1;
+            if (!wait_settled(B, 5.0)) stuck = 1;
+        }
         armed = NULL;
         show("A", A); show("B", B);
-        printf("status=%d word=%lld paused=%d\n", qthread_feb_status(w), (long long)*w, was_paused);
+        printf("status=%d word=%lld paused=%d stuck=%d\n", qthread_feb_status(w), (long long)*w, was_paused, stuck);
         fflush(stdout);
     }
     _exit(0);
